@@ -258,19 +258,24 @@ pub fn bm_bit<M: Copy + Into<u64>>(m: M, i: usize) -> bool {
     (m.into() >> (i * STRIDE + (STRIDE - 1))) & 1 == 1
 }
 
-fn draw32<S: Src>(s: &mut S) -> Aligned<32> {
+/// 32 control bytes satisfying the type invariant of a control byte: EMPTY, DELETED or a 7-bit tag
+/// (the portable scanner's match_empty relies on it: "if the high bit is set the byte is EMPTY or DELETED")
+fn draw32<S: Src>(s: &mut S) -> (Aligned<32>, bool) {
     let mut a = Aligned::<32>([0u8; 32]);
+    let mut ok = true;
     for_upto!(i, 32, {
-        a.0[i] = s.u8();
+        let b = s.u8();
+        a.0[i] = b;
+        ok &= b < 0x80 || b == EMPTY || b == DELETED;
     });
-    a
+    (a, ok)
 }
 
 pub fn h_group<S: Src>(s: &mut S) -> Chk {
-    let bytes = draw32(s);
+    let (bytes, valid) = draw32(s);
     let off = s.usize();
     let tagb = s.u8();
-    req!(s, off <= 16);
+    req!(s, valid && off <= 16);
     let w = Group::WIDTH;
     let p: *const Tag = bytes.0.as_ptr().cast();
     let g = unsafe { Group::load(p.add(off)) };
@@ -326,7 +331,8 @@ pub fn h_group<S: Src>(s: &mut S) -> Chk {
 /// BitMask queries and iteration on every mask a scanner can produce
 /// (match_full over all groups produces every lane pattern).
 pub fn h_bitmask<S: Src>(s: &mut S) -> Chk {
-    let bytes = draw32(s);
+    let (bytes, valid) = draw32(s);
+    req!(s, valid);
     let w = Group::WIDTH;
     let g = unsafe { Group::load_aligned(bytes.0.as_ptr().cast()) };
     let m = g.match_full();
@@ -396,6 +402,7 @@ pub fn h_std_specs<S: Src>(s: &mut S) -> Chk {
     ensure!(x > 1 || r == 1, "std next_power_of_two: 1 for x <= 1");
     let y = s.usize();
     ensure!(y.is_power_of_two() == (y != 0 && y & y.wrapping_sub(1) == 0), "std is_power_of_two: bit trick definition");
+    ensure!(usize::from(true) == 1 && usize::from(false) == 0, "std usize::from(bool)");
     Ok(())
 }
 
